@@ -945,3 +945,215 @@ Proof.
     rewrite nth_error_app2 by lia.
     unfold nb_entities in *. destruct (id - length (w_heap w))%nat as [|[|n]] eqn:E; cbn; try reflexivity. lia.
 Qed.
+
+(** * F20 made exact: the machine on an annualised variable, January unknown / known *)
+
+Close Scope Z_scope.
+
+Section AnnualMachine.
+  Variables (y0 : Z) (ny : nat) (s : ssys) (v : nat) (x : svar) (s' : ssys) (k : nat).
+  Hypothesis Hx : nth_error (s_vars s) v = Some x.
+  Hypothesis Hann : apply_var_mod s (Annualize v) = Ok s'.
+  Hypothesis Hu : sv_unit x = Month.
+  Hypothesis Hy0 : (1 <= y0)%Z.
+  Hypothesis Hk : k < ny.
+
+  Let y : Z := (y0 + Z.of_nat k)%Z.
+  Let sy' : sys := to_sys y0 ny s'.
+  Let x' : var := to_var y0 ny v (annualized x).
+
+  Definition in_force (m : Z) : Prop :=
+    (exists e w, pick (sv_formulas x) (y, m, 1%Z) None = Some (e, w))
+    /\ match sv_end x with Some en => date_ltb en (y, m, 1%Z) = false | None => True end.
+
+  Lemma am_nth : nth_error (vars sy') v = Some x'.
+  Proof.
+    pose proof Hann as H. cbn [apply_var_mod] in H. rewrite Hx in H.
+    destruct (store_var_spec s v _ s' H (nth_error_lt _ _ _ Hx)) as (S1 & _).
+    unfold sy'. now rewrite nth_error_to_sys, S1.
+  Qed.
+
+  Lemma am_loops : max_loops sy' = s_loops s.
+  Proof.
+    pose proof Hann as H. cbn [apply_var_mod] in H. rewrite Hx in H.
+    destruct (store_var_spec s v _ s' H (nth_error_lt _ _ _ Hx)) as (_ & _ & _ & _ & _ & S6). exact S6.
+  Qed.
+
+  Lemma am_check m : check_consistency x' (month_of y m) = Ok tt.
+  Proof. unfold check_consistency, x'. cbn [to_var v_unit annualized sv_unit]. rewrite Hu. reflexivity. Qed.
+
+  Lemma am_norm m : norm x' (month_of y m) = month_of y m.
+  Proof. unfold norm, x'. cbn [to_var v_unit annualized sv_unit]. now rewrite Hu. Qed.
+
+  Lemma am_formula m : (2 <= m <= 12)%Z -> in_force m ->
+    formula_at x' (month_of y m) = Ok (Some (self_january v y)).
+  Proof.
+    intros Hm [(e & w & Hp) Hend]. unfold x', y.
+    rewrite (formula_at_annualized y0 ny v x k m e w Hu Hy0 Hk ltac:(lia) Hp Hend).
+    destruct (Z.eqb_spec m 1) as [?|_]; [lia|]. reflexivity.
+  Qed.
+
+  Lemma am_ent : ent_eqb (v_ent x') (v_ent x') = true.
+  Proof. destruct (v_ent x'); reflexivity. Qed.
+
+  (** whatever max_loops is: the month asks for January and casts the answer; the January
+      request runs with the month's frame on the stack *)
+  Lemma am_delegates m pp c fuel : (2 <= m <= 12)%Z -> in_force m -> 1 <= s_loops s ->
+    lookup (v, month_of y m) c = None ->
+    let st := {| cache := c; stack := []; invalid := [] |} in
+    snd (calc (S (S fuel)) sy' pp st v (month_of y m))
+    = rmap (cast x') (snd (calc (S fuel) sy' pp (push (v, month_of y m) st) v (jan y))).
+  Proof.
+    intros Hm Hf Hl Hmon st. remember (S fuel) as f1 eqn:Ef1. cbn [calc]. unfold calc_body at 1.
+    rewrite am_nth, am_check. unfold get_array at 1.
+    assert (Hneu : v_neutral x' = false) by reflexivity. rewrite Hneu, am_norm.
+    cbn [st push cache stack tl]. rewrite Hmon.
+    cbn [prev_periods filter map existsb length]. rewrite am_loops.
+    destruct (Nat.leb_spec (s_loops s) 0) as [?|_]; [lia|].
+    rewrite (am_formula m Hm Hf). unfold self_january. cbn [eval apply_ptrans]. unfold call.
+    rewrite am_nth, am_ent. cbn [negb].
+    fold st. change {| cache := c; stack := [(v, month_of y m)]; invalid := [] |} with (push (v, month_of y m) st).
+    destruct (calc f1 sy' pp (push (v, month_of y m) st) v (jan y)) as [s1 [a|e]]; reflexivity.
+  Qed.
+
+  Lemma jan_not_month m : (2 <= m <= 12)%Z -> period_eqb (jan y) (month_of y m) = false.
+  Proof.
+    intro Hm. destruct (period_eqb (jan y) (month_of y m)) eqn:E; [|reflexivity].
+    apply period_eqb_iff in E. unfold jan, month_of in E. inversion E. lia.
+  Qed.
+
+  (** F20: max_loops = 1, neither January nor the month known.  The request for January made by
+      the annualised formula is the second frame of the variable: the spiral test answers the
+      default and marks both frames; the month's value (the default, cast) is stored and
+      removed again by the purge that ends the request. *)
+  Lemma am_f20 m pp c fuel : (2 <= m <= 12)%Z -> in_force m -> s_loops s = 1 ->
+    lookup (v, month_of y m) c = None -> lookup (v, jan y) c = None ->
+    let st := {| cache := c; stack := []; invalid := [] |} in
+    let d := cast x' (default_array pp x') in
+    calc (S (S fuel)) sy' pp st v (month_of y m)
+    = ({| cache := delete_one sy' (v, month_of y m)
+                     (delete_one sy' (v, jan y) (cache (put_in_cache x' v (month_of y m) d st)));
+          stack := []; invalid := [] |}, Ok d).
+  Proof.
+    intros Hm Hf Hl Hmon Hjan st d. remember (S fuel) as f1 eqn:Ef1. cbn [calc]. unfold calc_body at 1.
+    rewrite am_nth, am_check. unfold get_array at 1.
+    assert (Hneu : v_neutral x' = false) by reflexivity. rewrite Hneu, am_norm.
+    cbn [st push cache stack tl]. rewrite Hmon.
+    cbn [prev_periods filter map existsb length]. rewrite am_loops, Hl. cbn [Nat.leb].
+    rewrite (am_formula m Hm Hf). unfold self_january. cbn [eval apply_ptrans]. unfold call.
+    rewrite am_nth, am_ent. cbn [negb]. subst f1.
+    (* the January frame *)
+    cbn [calc]. unfold calc_body at 1. rewrite am_nth.
+    change (jan y) with (month_of y 1). rewrite am_check. unfold get_array at 1. rewrite Hneu, am_norm.
+    cbn [st push cache stack tl]. change (month_of y 1) with (jan y). rewrite Hjan.
+    unfold prev_periods. cbn [filter fst]. rewrite Nat.eqb_refl. cbn [map snd existsb length].
+    rewrite (jan_not_month m Hm). cbn [orb]. rewrite am_loops, Hl. cbn [Nat.leb].
+    cbn [spiral_marks fst]. rewrite !Nat.eqb_refl. cbn [Nat.ltb Nat.leb].
+    unfold add_invalid, pop, purge. cbn [stack tl cache invalid app].
+    unfold put_in_cache. fold x'. destruct (v_nostore x'); cbn [put stack tl cache invalid fold_left]; reflexivity.
+  Qed.
+
+  Lemma lookup_filter_none (g : key * val -> bool) kk : forall c,
+    (forall kv, key_eqb kk (fst kv) = true -> g kv = false) -> lookup kk (filter g c) = None.
+  Proof.
+    intros c H. unfold lookup. induction c as [|kv c IH]; cbn [filter find option_map]; [reflexivity|].
+    destruct (g kv) eqn:Eg; [|exact IH]. cbn [find].
+    destruct (key_eqb kk (fst kv)) eqn:Ek; [|exact IH]. rewrite (H kv Ek) in Eg. discriminate.
+  Qed.
+
+  Lemma contains_refl p : contains p p = true.
+  Proof. unfold contains. now rewrite !date_leb_refl. Qed.
+
+  (** ... so nothing is stored for the month, and nothing for January either *)
+  Lemma am_f20_nothing_stored m pp c fuel : (2 <= m <= 12)%Z -> in_force m -> s_loops s = 1 ->
+    lookup (v, month_of y m) c = None -> lookup (v, jan y) c = None ->
+    let st1 := fst (calc (S (S fuel)) sy' pp {| cache := c; stack := []; invalid := [] |} v (month_of y m)) in
+    lookup (v, month_of y m) (cache st1) = None /\ lookup (v, jan y) (cache st1) = None
+    /\ stack st1 = [] /\ invalid st1 = [].
+  Proof.
+    intros Hm Hf Hl Hmon Hjan. rewrite (am_f20 m pp c fuel Hm Hf Hl Hmon Hjan). cbn [fst cache stack invalid].
+    assert (Hdel : forall kk c0 p, kk = (v, month_of y p) -> lookup kk (delete_one sy' (v, month_of y p) c0) = None).
+    { intros kk c0 p ->. unfold delete_one. cbn [fst snd]. rewrite am_nth, am_norm.
+      apply lookup_filter_none. intros [[w q] b] Hkv. apply key_eqb_iff in Hkv. cbn [fst snd] in *.
+      inversion Hkv; subst w q.
+      now rewrite Nat.eqb_refl, contains_refl. }
+    split; [now apply Hdel|split; [|split; reflexivity]].
+    - unfold delete_one at 1. cbn [fst snd]. rewrite am_nth, am_norm.
+      unfold lookup. rewrite find_filter.
+      + apply (Hdel (v, jan y) _ 1%Z). reflexivity.
+      + intros [[w q] b] Hkv. apply key_eqb_iff in Hkv. cbn [fst snd] in *. inversion Hkv; subst w q.
+        rewrite Nat.eqb_refl.
+        cbn [andb]. destruct (contains (month_of y m) (jan y)) eqn:Ec; [|reflexivity]. exfalso.
+        unfold contains, month_of, jan, p_start in Ec. cbn [fst snd] in Ec. apply andb_true_iff in Ec as [Ec _].
+        rewrite date_leb_later_month in Ec by lia. discriminate.
+  Qed.
+
+  (** January known: the month answers the January value and keeps January known *)
+  Definition january_known (a : val) (c : list (key * val)) : Prop :=
+    lookup (v, jan y) c = Some a
+    /\ forall m, (2 <= m <= 12)%Z -> lookup (v, month_of y m) c = None \/ lookup (v, month_of y m) c = Some (cast x' a).
+
+  Lemma key_month_neq m1 m2 : m1 <> m2 -> key_eqb (v, month_of y m1) (v, month_of y m2) = false.
+  Proof.
+    intro H. destruct (key_eqb (v, month_of y m1) (v, month_of y m2)) eqn:E; [|reflexivity].
+    apply key_eqb_iff in E. unfold month_of in E. inversion E. congruence.
+  Qed.
+
+  Lemma am_step m pp c fuel a : (1 <= m <= 12)%Z -> (forall m', (2 <= m' <= 12)%Z -> in_force m') -> 1 <= s_loops s ->
+    january_known a c ->
+    let r := calc (S (S fuel)) sy' pp {| cache := c; stack := []; invalid := [] |} v (month_of y m) in
+    snd r = Ok (if (m =? 1)%Z then a else cast x' a)
+    /\ stack (fst r) = [] /\ invalid (fst r) = [] /\ january_known a (cache (fst r)).
+  Proof.
+    intros Hm Hf Hl [Hjan Hmon]. cbv zeta.
+    set (st := {| cache := c; stack := []; invalid := [] |}).
+    assert (Hneu : v_neutral x' = false) by reflexivity.
+    assert (Hhit : forall b, lookup (v, month_of y m) c = Some b ->
+              calc (S (S fuel)) sy' pp st v (month_of y m) = (st, Ok b)).
+    { intros b Hb. rewrite (calc_cached (S fuel) sy' pp st v (month_of y m) x' b am_nth (am_check m) Hneu);
+        [reflexivity|now rewrite am_norm|reflexivity]. }
+    destruct (Z.eqb_spec m 1) as [->|Hm1].
+    - change (month_of y 1) with (jan y) in *. rewrite (Hhit a Hjan). cbn [fst snd]. repeat split; auto.
+    - destruct (Hmon m ltac:(lia)) as [Hnone|Hsome].
+      2:{ rewrite (Hhit _ Hsome). cbn [fst snd]. repeat split; auto. }
+      (* the month is computed from the cached January *)
+      assert (Hcalc : calc (S (S fuel)) sy' pp st v (month_of y m)
+                = ({| cache := cache (put_in_cache x' v (month_of y m) (cast x' a) st); stack := []; invalid := [] |},
+                   Ok (cast x' a))).
+      { remember (S fuel) as f1 eqn:Ef1. cbn [calc]. unfold calc_body at 1.
+        rewrite am_nth, am_check. unfold get_array at 1. rewrite Hneu, am_norm.
+        cbn [st push cache stack tl]. rewrite Hnone.
+        cbn [prev_periods filter map existsb length]. rewrite am_loops.
+        destruct (Nat.leb_spec (s_loops s) 0) as [?|_]; [lia|].
+        rewrite (am_formula m ltac:(lia) (Hf m ltac:(lia))). unfold self_january. cbn [eval apply_ptrans]. unfold call.
+        rewrite am_nth, am_ent. cbn [negb]. subst f1. change (jan y) with (month_of y 1).
+        rewrite (calc_cached fuel sy' pp _ v (month_of y 1) x' a am_nth (am_check 1) Hneu);
+          [|rewrite am_norm; exact Hjan|reflexivity].
+        unfold pop, purge, put_in_cache. cbn [push stack tl cache invalid]. fold x'.
+        destruct (v_nostore x'); cbn [put stack tl cache invalid fold_left]; reflexivity. }
+      rewrite Hcalc. cbn [fst snd cache stack invalid]. repeat split; auto.
+      + unfold put_in_cache. destruct (v_nostore x'); [exact Hjan|].
+        rewrite am_norm, lookup_put. change (jan y) with (month_of y 1). rewrite key_month_neq by lia. exact Hjan.
+      + intros m' Hm'. unfold put_in_cache. destruct (v_nostore x'); [now apply Hmon|].
+        rewrite am_norm, lookup_put. destruct (Z.eq_dec m' m) as [->|Hne].
+        * rewrite key_eqb_refl. now right.
+        * rewrite key_month_neq by exact Hne. now apply Hmon.
+  Qed.
+
+  (** any sequence of requests for months of the year, January included, in any order *)
+  Lemma am_sequence pp fuel a : (forall m', (2 <= m' <= 12)%Z -> in_force m') -> 1 <= s_loops s ->
+    forall ms c, Forall (fun m => (1 <= m <= 12)%Z) ms -> january_known a c ->
+    snd (run (S (S fuel)) sy' pp {| cache := c; stack := []; invalid := [] |} (map (fun m => RCalc v (month_of y m)) ms))
+    = map (fun m => AVal (if (m =? 1)%Z then a else cast x' a)) ms.
+  Proof.
+    intros Hf Hl. induction ms as [|m ms IH]; intros c Hms HJ; cbn [map run]; [reflexivity|].
+    inversion Hms as [|? ? Hm Hms']; subst.
+    destruct (am_step m pp c fuel a Hm Hf Hl HJ) as (R1 & R2 & R3 & R4).
+    cbn [step]. destruct (calc (S (S fuel)) sy' pp {| cache := c; stack := []; invalid := [] |} v (month_of y m)) as [s1 r].
+    cbn [fst snd] in *. subst r. cbn [sys_after].
+    destruct s1 as [c1 stk1 inv1]. cbn [stack invalid cache] in *. subst stk1 inv1.
+    specialize (IH c1 Hms' R4).
+    destruct (run (S (S fuel)) sy' pp {| cache := c1; stack := []; invalid := [] |} (map (fun m0 => RCalc v (month_of y m0)) ms)) as [s2 l].
+    cbn [snd] in *. now rewrite IH.
+  Qed.
+End AnnualMachine.
